@@ -24,6 +24,9 @@ rule("C01.h", "the rows copied for node k of a multi-commodity asset are scaled 
 rule("C01.i", "a (node, step) pair gets no nodal row only because the node is in the skip set or no dispatch row matches", floor=1)
 rule("C07.h", "one nodal row per (node, step): counter increment and (step, node) record happen exactly once per created row", floor=1,
      props=["C07", "C18"])
+rule("C07.ac", "the columns an asset's restriction rows are embedded in are the asset's whole block of variables (its offset + 0 .. width - 1): "
+               "not the labels that occur in its mapping rows - a variable without rows (an order outside the horizon) has a column too, and "
+               "the order of appearance of labels is not the order of columns", floor=1, props=["C07", "C16"])
 rule("C07.j", "asset rows are embedded into the asset's own columns: index set, matrix, right-hand side and letters are selected "
               "by the same loop variable", floor=3)
 rule("C18.a", "every constraint appended for a row class is paired with the counter increment that records its position", floor=4)
@@ -64,7 +67,7 @@ rule("C01.l", "a wrapper declares every node of the asset it wraps: the nodes it
               "in the report)", floor=1, props=["C01", "C16"])
 
 
-@analysis("nodal", ["C01.a", "C01.b", "C01.d", "C01.e", "C01.f", "C01.h", "C01.i", "C07.h", "C07.j", "C18.a", "C18.b", "C01.l"])
+@analysis("nodal", ["C01.a", "C01.b", "C01.d", "C01.e", "C01.f", "C01.h", "C01.i", "C07.h", "C07.j", "C18.a", "C18.b", "C01.l", "C07.ac"])
 def run(ctx):
     p = ctx.p
     # ---- C01.l nodes a wrapper declares
@@ -335,6 +338,31 @@ def run(ctx):
                 for n in au.walk_local(st.value):
                     if isinstance(n, ast.Compare) and isinstance(n.left, ast.Subscript) and au.const_str(n.left.slice) == "asset":
                         key = au.U(n.comparators[0])
+        # the column index set of the embedding  X[:, ind] = <asset problem>.A
+        for st in au.walk_stmts(emb.body):
+            if isinstance(st, ast.Assign) and isinstance(st.targets[0], ast.Subscript) and isinstance(st.targets[0].slice, ast.Tuple) \
+                    and len(st.targets[0].slice.elts) == 2 and any(isinstance(x, ast.Attribute) and x.attr == "A" for x in au.walk_local(st.value)):
+                ind = ctx.resolve(pf, st.targets[0].slice.elts[1], st)
+                from_labels = any(isinstance(x, ast.Attribute) and x.attr == "index" for x in au.walk_local(ind)) or \
+                    any(isinstance(x, ast.Call) and au.method_name(x) in ("unique", "drop_duplicates") for x in au.walk_local(ind))
+                rng = [x for x in au.walk_local(ind) if isinstance(x, ast.Call) and au.method_name(x) in ("arange", "range")]
+                offs = [x for x in au.walk_local(ind) if isinstance(x, ast.Subscript) and isinstance(x.value, ast.Name) and not isinstance(x.slice, ast.Slice)
+                        and any(nm in lv for nm in au.names_in(x.slice))]
+                if rng and offs and not from_labels:
+                    key = key or au.U(offs[0].slice)
+                    # the length of the range is the width of the embedded matrix
+                    from .counts import Counter, VAR
+                    wid = rng[0].args[-1] if rng[0].args else None
+                    got = Counter(ctx, pf).count(wid, st) if wid is not None else None
+                    ctx.ob("C07.ac", pf, au.short(ind, 70), True if got == VAR else None,
+                           "the length of the column range (%s) could not be shown to be the number of variables of the embedded problem" % au.short(wid, 30),
+                           node=st, ok_detail="offset of the asset + range over the width of its matrix")
+                else:
+                    ctx.ob("C07.ac", pf, au.short(ind, 70), False if from_labels else None,
+                           "the columns are the labels that occur in the asset's mapping rows (%s): an asset with a variable that has no row - an order "
+                           "outside the horizon inside a structured asset that also has restrictions - has a matrix that is wider than this index set "
+                           "(ValueError: shape mismatch), and labels that do not appear in ascending order would permute the columns silently"
+                           % au.short(ind, 60) if from_labels else "the column index set of the embedding was not recognised", node=st)
         for attr in ("A", "b", "cType"):
             srcs = set()
             for st in au.walk_stmts(emb.body):
